@@ -18,7 +18,10 @@ import (
 	"errors"
 	"fmt"
 	"runtime"
+	"sort"
 	"strings"
+	"sync"
+	"sync/atomic"
 	"testing"
 	"time"
 
@@ -163,11 +166,11 @@ const (
 )
 
 type vSubmission struct {
-	ID      int      `json:"id"`
-	Man     int      `json:"manifest"`
-	Step    int      `json:"step"`
-	Replies []string `json:"replies"`
-	ch      chan error
+	ID       int      `json:"id"`
+	Man      int      `json:"manifest"`
+	Step     int      `json:"step"`
+	Replies  []string `json:"replies"`
+	ch       chan error
 	accepted bool
 	// model: was it checked, and was it valid when checked
 	Checked      bool `json:"checked"`
@@ -199,20 +202,33 @@ type vMState struct {
 	run  *vMRun
 	done chan *manager
 	// model
-	leases   int
-	fetched  bool
-	version  int // manifest index whose hash is in force (after fetch / updates)
-	updated  int // last V before the fetch completed (0 = none)
-	stopped  bool
-	step     int
-	nLease   int
-	valid    []int // submissions (ids) valid at check, in check order
-	viol     []vMViolation
+	leases  int
+	fetched bool
+	version int // manifest index whose hash is in force (after fetch / updates)
+	updated int // last V before the fetch completed (0 = none)
+	stopped bool
+	step    int
+	nLease  int
+	valid   []int // submissions (ids) valid at check, in check order
+	viol    []vMViolation
 }
 
 type vMViolation struct{ Rule, Trigger, Detail string }
 
 const vMTimeout = 20 * time.Second
+
+// vMQuick is set while sequences are only being enumerated (nothing is
+// judged) and once a violation has been recorded (the verdict is settled):
+// waits for a manager to terminate are then kept short.
+var vMQuick int32
+var vMStaleSeen int32
+
+func vMTermWait() time.Duration {
+	if atomic.LoadInt32(&vMQuick) != 0 {
+		return 150 * time.Millisecond
+	}
+	return 1500 * time.Millisecond
+}
 
 type vMarker struct{ n int }
 
@@ -240,7 +256,9 @@ func vNewMState(k *vManifestKit) *vMState {
 	return s
 }
 
-func (s *vMState) note(f string, a ...interface{}) { s.run.Notes = append(s.run.Notes, fmt.Sprintf(f, a...)) }
+func (s *vMState) note(f string, a ...interface{}) {
+	s.run.Notes = append(s.run.Notes, fmt.Sprintf(f, a...))
+}
 
 func (s *vMState) isDone() bool {
 	select {
@@ -287,8 +305,21 @@ func (s *vMState) stepLoop() bool {
 	last := s.st.LastArgs()
 	if len(last) >= 2 {
 		if inflight, _ := last[1].(bool); inflight {
-			dl := time.Now().Add(vMTimeout)
-			for s.g.Pending(venv.KQueryDeployment) == nil && time.Now().Before(dl) {
+			// (a started fetch goroutine reaches the chain client within
+			// microseconds; a loop that reports a fetch which never arrives is a
+			// stuck manager: noted, the wait is short from then on and the
+			// consequences - unanswered submissions - are judged by finish())
+			bound := 2 * time.Second
+			if atomic.LoadInt32(&vMStaleSeen) != 0 {
+				bound = 50 * time.Millisecond
+			}
+			dl := time.Now().Add(bound)
+			for s.g.Pending(venv.KQueryDeployment) == nil {
+				if !time.Now().Before(dl) {
+					atomic.StoreInt32(&vMStaleSeen, 1)
+					s.note("loop reports a fetch in flight, none reached the chain client")
+					break
+				}
 				select {
 				case <-s.m.lc.ShuttingDown():
 					return true
@@ -435,7 +466,9 @@ func (s *vMState) apply(ev vMEvent) bool {
 		lid := mtypes.LeaseID{Owner: s.k.owner, DSeq: s.k.did.DSeq, GSeq: 1, OSeq: uint32(s.nLease), Provider: s.k.prov}
 		grp := s.k.groups[0]
 		s.leases++ // model first: announcements made while handling L see the lease
-		ok = handoff(func() { s.m.handleLease(event.LeaseWon{LeaseID: lid, Group: &grp, Price: sdk.NewInt64Coin("uakt", 30)}) })
+		ok = handoff(func() {
+			s.m.handleLease(event.LeaseWon{LeaseID: lid, Group: &grp, Price: sdk.NewInt64Coin("uakt", 30)})
+		})
 	case mR:
 		lid := mtypes.LeaseID{Owner: s.k.owner, DSeq: s.k.did.DSeq, GSeq: 1, OSeq: uint32(s.nLease - s.leases + 1), Provider: s.k.prov}
 		ok = handoff(func() { s.m.removeLease(lid) })
@@ -481,10 +514,15 @@ func (s *vMState) apply(ev vMEvent) bool {
 		case <-time.After(vMTimeout):
 			s.note("X: the loop did not take the stop request")
 		}
-		dl := time.Now().Add(vMTimeout)
+		// termination itself is not part of C20's statement: give it a moment
+		// and go on (a manager that cannot terminate is noted, not alarmed)
+		dl := time.Now().Add(vMTermWait())
 		for !s.isDone() && time.Now().Before(dl) {
 			s.g.ReleaseAll(func(c *vs.GateCall) (interface{}, error) { return nil, errScriptedFetch })
 			time.Sleep(50 * time.Microsecond)
+		}
+		if !s.isDone() {
+			s.note("manager did not terminate after stop()")
 		}
 	}
 	s.collect()
@@ -561,7 +599,7 @@ func (s *vMState) cleanup() {
 	if !s.isDone() {
 		s.st.Free()
 		go s.m.stop()
-		dl := time.Now().Add(5 * time.Second)
+		dl := time.Now().Add(vMTermWait())
 		for !s.isDone() && time.Now().Before(dl) {
 			s.g.ReleaseAll(func(c *vs.GateCall) (interface{}, error) { return nil, errScriptedFetch })
 			time.Sleep(100 * time.Microsecond)
@@ -602,6 +640,14 @@ func vRunMSequence(k *vManifestKit, seq []vMEvent) *vMState {
 }
 
 func vEnumerateM(k *vManifestKit, maxLen int, visit func(seq []vMEvent)) {
+	atomic.StoreInt32(&vMQuick, 1)
+	defer atomic.StoreInt32(&vMQuick, 0)
+	// the subtrees below the first two levels are explored concurrently (each
+	// prefix runs on its own manager); visit is serialized and the caller
+	// sorts what it collected
+	var mu sync.Mutex
+	var wg sync.WaitGroup
+	sem := make(chan struct{}, runtime.NumCPU())
 	var rec func(prefix []vMEvent)
 	rec = func(prefix []vMEvent) {
 		s := vNewMState(k)
@@ -619,16 +665,39 @@ func vEnumerateM(k *vManifestKit, maxLen int, visit func(seq []vMEvent)) {
 		}
 		s.cleanup()
 		if len(prefix) > 0 {
+			mu.Lock()
 			visit(prefix)
+			mu.Unlock()
 		}
 		if len(prefix) >= maxLen {
 			return
 		}
 		for _, e := range en {
-			rec(append(append([]vMEvent(nil), prefix...), e))
+			next := append(append([]vMEvent(nil), prefix...), e)
+			if len(prefix) < 2 {
+				wg.Add(1)
+				go func() {
+					defer wg.Done()
+					sem <- struct{}{}
+					defer func() { <-sem }()
+					rec(next)
+				}()
+			} else {
+				rec(next)
+			}
 		}
 	}
 	rec(nil)
+	wg.Wait()
+}
+
+func vSortSeqs(seqs [][]vMEvent) {
+	sort.Slice(seqs, func(i, j int) bool {
+		if len(seqs[i]) != len(seqs[j]) {
+			return len(seqs[i]) < len(seqs[j])
+		}
+		return vMSeq(seqs[i]) < vMSeq(seqs[j])
+	})
 }
 
 // vMDirectedVersionSeqs: version updates on both sides of the chain fetch,
@@ -691,6 +760,7 @@ func TestVerif_C20(t *testing.T) {
 		res.Distinct(vMSeq(seq))
 		for _, v := range s.viol {
 			res.AddViolation(v.Rule, "C20/"+v.Rule+"/"+v.Trigger, v.Detail, s.run)
+			atomic.StoreInt32(&vMQuick, 1)
 		}
 		res.Count("announcements", len(s.run.Ann))
 		for _, sub := range s.run.Subs {
@@ -742,12 +812,14 @@ func TestVerif_C20(t *testing.T) {
 		// the same enumeration, shallower, under the race detector
 		var seqs [][]vMEvent
 		vEnumerateM(k, 3, func(seq []vMEvent) { seqs = append(seqs, append([]vMEvent(nil), seq...)) })
+		vSortSeqs(seqs)
 		vs.Parallel(len(seqs), runtime.NumCPU(), func(i int) { judge(seqs[i]) })
 		return
 	}
 	maxLen := vs.Scale(4, 5)
 	var seqs [][]vMEvent
 	vEnumerateM(k, maxLen, func(seq []vMEvent) { seqs = append(seqs, append([]vMEvent(nil), seq...)) })
+	vSortSeqs(seqs)
 	res.Extra("enumeration", fmt.Sprintf("all enabled sequences of length 1..%d over 10 events: %d (complete)", maxLen, len(seqs)))
 	seqs = append(seqs, vMDirectedVersionSeqs()...)
 	vs.Parallel(len(seqs), runtime.NumCPU(), func(i int) { judge(seqs[i]) })
